@@ -981,3 +981,46 @@ def metadata_unpack_arbitrary_params(direction: EnumOf(Direction), mode: EnumOf(
     requires(ids_in_range(we, ws, src, seq, dst))
     data = pdu_header_octets(0, direction, mode, crc, large, 2 + fss_len(large) + area + crc_len(crc), 0, 0, we, ws, src, seq, dst) + rest
     md_arbitrary_clauses(data)
+
+
+@obligation(["C11", "C06"], "MetadataPdu/setters", bounded=OPT_BOUND,
+            verifies=[MD + "MetadataPdu.options", MD + "MetadataPdu.source_file_name", MD + "MetadataPdu.dest_file_name",
+                      MD + "MetadataPdu._calculate_directive_field_len"])
+def metadata_setters(mode: EnumOf(TransmissionMode), crc: EnumOf(CrcFlag), large: EnumOf(LargeFileFlag), src: Int, seq: Int, dst: Int,
+                     closure: Bool, cksum: EnumOf(ChecksumType), size: Int, sname0: NAME, dname0: NAME, items0: ListOf(OPT_ITEM, 1),
+                     sname1: OptionalOf(NAME), dname1: OptionalOf(NAME), items1: OptionalOf(OPTIONS), options_first: Bool):
+    """options, source_file_name and dest_file_name setters == freshly built PDU with the final values; reported length == packed
+    length.  (The caller's MetadataParams object keeps the names it was built with - the setters only change the PDU.)"""
+    we = 2
+    ws = 8
+    requires(ids_in_range(we, ws, src, seq, dst))
+    requires(fss_fits(large, size))
+    conf = mk_conf(we, ws, src, seq, dst, mode, crc, large, Direction.TOWARDS_RECEIVER, SegmentationControl.NO_RECORD_BOUNDARIES_PRESERVATION)
+    params = MetadataParams(closure, cksum, size, sname0, dname0)
+    snap = snapshot(conf)
+    psnap = snapshot(params)
+    pdu = MetadataPdu(conf, params, mk_options(items0))
+    final = None
+    if items1 is not None:
+        final = mk_options(items1)
+    if options_first:
+        pdu.options = final
+        pdu.source_file_name = sname1
+        pdu.dest_file_name = dname1
+    else:
+        pdu.dest_file_name = dname1
+        pdu.source_file_name = sname1
+        pdu.options = final
+    ensures("caller-objects-untouched", both(same_state(conf, snap), same_state(params, psnap)))
+    ensures("accessors", both(name_accessor_ok(pdu.source_file_name, sname1), name_accessor_ok(pdu.dest_file_name, dname1),
+                              is_same(pdu.options, final)))
+    fresh = MetadataPdu(conf, MetadataParams(closure, cksum, size, sname1, dname1), final)
+    ensures("lengths-as-fresh", both(pdu.packet_len == fresh.packet_len,
+                                     pdu.pdu_header.pdu_data_field_len == fresh.pdu_header.pdu_data_field_len))
+    ensures("equal-to-fresh", both(pdu == fresh, fresh == pdu))
+    raw = pdu.pack()
+    ensures("octets-as-fresh", raw == fresh.pack())
+    ensures("packet_len", pdu.packet_len == len(raw))
+    ensures("data-field-len", pdu.pdu_header.pdu_data_field_len == len(raw) - pdu.pdu_header.header_len)
+    ensures("pack-twice", pdu.pack() == raw)
+    ensures("still-equal", pdu == fresh)
